@@ -194,9 +194,14 @@ func checkC18(c *Ctx) error {
 		atomic.AddInt64(&cli, 1)
 		after, _ := snapshot(d)
 		diff := diffTrees(before, after)
-		_, exists := ft[a.FTarget]
+		// the spec concatenates names: "include/" + "/932100.ra" names the same file as "include/932100.ra"
+		target := filepath.Clean(a.FTarget)
+		_, exists := ft[target]
+		if strings.HasSuffix(a.FTarget, "/") {
+			exists = false // a name that ends in a separator can only name a directory
+		}
 		if exists {
-			if r.Exit != 0 || len(diff) != 1 || diff[0] != "changed:"+a.FTarget {
+			if r.Exit != 0 || len(diff) != 1 || diff[0] != "changed:"+target {
 				c.violation("args", map[string]any{"argument": a.Arg, "spec_target": a.FTarget, "why": fmt.Sprintf("format must rewrite exactly %s; exit=%d diff=%v", a.FTarget, r.Exit, diff)})
 			}
 		} else if r.Exit == 0 || len(diff) != 0 {
